@@ -23,7 +23,11 @@ var (
 	// per ecosystem package (pkg/ecosystem/<name>): the literals of that package only
 	ecoWords = map[string][]string{}
 	ecoNums  = map[string][]string{}
+	// punctuation-only literals of 1..3 characters (operator and separator spellings) per package
+	ecoSyms = map[string][]string{}
 )
+
+var dictSymRe = regexp.MustCompile(`^[!-/:-@\[-` + "`" + `{-~]{1,3}$`)
 
 var dictWordRe = regexp.MustCompile(`[A-Za-z]{1,20}`)
 var dictNumRe = regexp.MustCompile(`[0-9]{1,30}`)
@@ -32,6 +36,7 @@ var dictNumRe = regexp.MustCompile(`[0-9]{1,30}`)
 func LoadDictionary(repo string) (words, nums int) {
 	ws, ns := map[string]bool{}, map[string]bool{}
 	pws, pns := map[string]map[string]bool{}, map[string]map[string]bool{}
+	psy := map[string]map[string]bool{}
 	curPkg := ""
 	addWord := func(w string) {
 		ws[w] = true
@@ -103,6 +108,12 @@ func LoadDictionary(repo string) (words, nums int) {
 					if len(s) > 200 {
 						return true
 					}
+					if curPkg != "" && dictSymRe.MatchString(s) {
+						if psy[curPkg] == nil {
+							psy[curPkg] = map[string]bool{}
+						}
+						psy[curPkg][s] = true
+					}
 					for _, w := range dictWordRe.FindAllString(s, -1) {
 						addWord(w)
 					}
@@ -144,7 +155,40 @@ func LoadDictionary(repo string) (words, nums int) {
 		sort.Strings(l)
 		ecoNums[pkg] = l
 	}
+	for pkg, m := range psy {
+		var l []string
+		for n := range m {
+			l = append(l, n)
+		}
+		sort.Strings(l)
+		ecoSyms[pkg] = l
+	}
 	return len(dictWords), len(dictNums)
+}
+
+// PkgSymbols returns the punctuation-only string / char literals (1..3 characters) of one package.
+func PkgSymbols(pkg string) []string { return ecoSyms[pkg] }
+
+// SymRange writes a range as <symbol><version> (or with a space, or two of them joined by the ecosystem's usual
+// separators) where <symbol> is a punctuation literal of the ecosystem's own sources: operators the workload tables do
+// not know yet are exercised the day they are added. The result may well be rejected by the parser.
+func SymRange(eco string, r *rand.Rand, version func() string) string {
+	sy := ecoSyms[eco]
+	if len(sy) == 0 {
+		return ">=" + version()
+	}
+	one := func() string {
+		s := sy[r.IntN(len(sy))]
+		if r.IntN(4) == 0 {
+			s += " "
+		}
+		return s + version()
+	}
+	switch r.IntN(4) {
+	case 0:
+		return one() + []string{" ", ",", ", ", " || ", "|"}[r.IntN(5)] + one()
+	}
+	return one()
 }
 
 func decDouble(d string) string {
